@@ -181,6 +181,10 @@ func (w *fsWriter) writeBlob(data []byte, key Key, n uint64) error {
 
 	found, overwrite := existsAndValidBlob(ctx, w.store, w.pather(key), data, lg)
 	switch {
+	case found && !overwrite && !refreshBlob(ctx, w.store, w.pather(key), lg):
+		// the blob has been found and checked, but is no longer there (or cannot be marked as in use): write it again
+		lg.Info("blob was already in store, but could not be refreshed. Write it again")
+
 	case found && !overwrite:
 		// the blob has been found and checked
 		w.l.Info("Duplicate blob")
